@@ -40,7 +40,22 @@ def mat_case(draw, n, m=None, kinds=("int", "dyadic", "complex"), rank=None):
             pool.append({"b": b, "c": c})
         else:
             ent = C.gint(9) if kind == "complex" else C.ints(9)
-            pool.append({"a": [[draw(ent) for _ in range(m)] for _ in range(n)]})
+            a = [[draw(ent) for _ in range(m)] for _ in range(n)]
+            # structured matrices: regular, but with vanishing leading blocks / many zeros (pivot-free closed forms, block formulas
+            # and eliminations without row exchange fail on them)
+            pat = draw(st.sampled_from([None, None, None, "zero-leading-block", "signed-permutation", "zero-diagonal"])) if n == m and rank is None else None
+            zero = [0, 0] if kind == "complex" else 0
+            if pat == "zero-leading-block" and n >= 3:
+                for i in range(2):
+                    for j in range(2):
+                        a[i][j] = zero
+            elif pat == "signed-permutation":
+                perm = draw(st.permutations(range(n)))
+                a = [[(a[i][j] if (a[i][j] != zero) else ([1, 0] if kind == "complex" else 1)) if j == perm[i] else zero for j in range(n)] for i in range(n)]
+            elif pat == "zero-diagonal":
+                for i in range(n):
+                    a[i][i] = zero
+            pool.append({"a": a, "pat": pat} if pat else {"a": a})
     return {"kind": kind, "pool": pool}
 
 
@@ -547,16 +562,18 @@ def sq_labels(c):
     out = [f"n{c['n']}", c["mc"]["kind"], "batch>=64" if C.prod(c["batch"]) >= 64 else "batch<64"]
     if c["rank"] is not None:
         out.append("singular")
+    if any(p.get("pat") for p in c["mc"]["pool"]):
+        out.append("structured-zeros" + (":batch>=64" if C.prod(c["batch"]) >= 64 else ""))
     return out
 
 
 LAWS = [
-    Law("det", sq_strategy(True), run_det, sq_nontrivial, sq_labels, {"quick": 400, "thorough": 6000},
-        "det vs exact determinant, both sides of the 64-matrix switch", mandatory=("batch>=64", "batch<64", "singular", "complex")),
+    Law("det", sq_strategy(True), run_det, sq_nontrivial, sq_labels, {"quick": 600, "thorough": 8000},
+        "det vs exact determinant, both sides of the 64-matrix switch", mandatory=("batch>=64", "batch<64", "singular", "complex", "structured-zeros:batch>=64")),
     Law("adjugate", sq_strategy(True), run_adj, sq_nontrivial, sq_labels, {"quick": 250, "thorough": 4000},
         "adjugate vs exact cofactor matrix; A adj(A) = adj(A) A = det(A) I", mandatory=("batch>=64", "batch<64", "singular")),
-    Law("inv", sq_strategy(False), run_inv, lambda c: C.prod(c["batch"]) >= 63, sq_labels, {"quick": 250, "thorough": 4000},
-        "inv vs exact inverse of invertible matrices", mandatory=("batch>=64", "batch<64")),
+    Law("inv", sq_strategy(False), run_inv, lambda c: C.prod(c["batch"]) >= 63, sq_labels, {"quick": 400, "thorough": 5000},
+        "inv vs exact inverse of invertible matrices", mandatory=("batch>=64", "batch<64", "structured-zeros:batch>=64")),
     Law("null_space_orth", lowrank_strategy, run_nullspace, lambda c: True,
         lambda c: [f"{c['n']}x{c['m']}", "dim-given" if c["given_dim"] else "dim-auto", "batched" if c["batch"] else "single"],
         {"quick": 300, "thorough": 5000}, "null_space / orth of planted-rank integer products: shape, A N = 0, orthonormality, same range"),
